@@ -50,6 +50,8 @@ pub fn sites() -> Vec<(&'static str, Box<dyn Fn(&mut Conn)>)> {
     v.push(("stall_then_close", Box::new(|c| c.client = ClientMode::Stall { then_send: false })));
     v.push(("stall_then_send", Box::new(|c| c.client = ClientMode::Stall { then_send: true })));
     v.push(("handler_err", Box::new(|c| c.faults.handler_err = true)));
+    v.push(("handler_panic_literal", Box::new(|c| c.faults.handler_panic = Some(false))));
+    v.push(("handler_panic_formatted", Box::new(|c| c.faults.handler_panic = Some(true))));
     v.push(("segmented", Box::new(|c| {
         let n = c.request.0.len();
         if n >= 3 {
